@@ -128,7 +128,10 @@ def c19_reader_shapes(tier, seed=0):
     for b in (MUT_BASES if not thorough else MUT_BASES + FIXED):      # (the long alternating templates with a free byte near their start do not finish within the cap)
         for m in mutations(b): (free_m if '?' in m else fixed_m).append(m)
     if not thorough:
-        rnd = random.Random(1000 + seed); free_m = rnd.sample(free_m, 40)
+        # (a free byte within the first four positions of a long template shifts everything after it symbolically and can take
+        # minutes: left to the thorough tier)
+        pool = [m for m in free_m if len(m) <= 12 or m.index('?') >= 4]
+        rnd = random.Random(1000 + seed); free_m = rnd.sample(pool, 40)
     for m in fixed_m + free_m:
         out.append(('v3 footer mutation %s' % tpl_str(m), v2_file(0x33, (0, 0, 0, 0, 0, 0), (0, 0, 0, 1, 1, 0), m), ('on',)))
     # (6) short footers with every inner byte free
